@@ -88,7 +88,7 @@ def build_all(pre_make=None):
         if need and os.path.exists(drv_src[0]):
             for s in (os.path.join(COQ, "model.ml"), os.path.join(COQ, "model.mli"), drv_src[1]):
                 subprocess.run(["cp", s, BUILD])
-            q = subprocess.run("timeout 900 ocamlfind ocamlopt -w -a model.mli model.ml driver.ml -o driver 2>&1 | tail -20",
+            q = subprocess.run("timeout 900 ocamlfind ocamlopt -package unix -linkpkg -w -a model.mli model.ml driver.ml -o driver 2>&1 | tail -20",
                                shell=True, cwd=BUILD, capture_output=True, text=True)
             log.append(q.stdout)
             ok = ok and os.path.exists(DRIVER)
